@@ -38,6 +38,7 @@ func init() {
 			for i, e := range m.Entries {
 				if ex.branch(ex.valEq(e.Key, a[1])) {
 					m.Entries = append(append([]*MapEntry{}, m.Entries[:i]...), m.Entries[i+1:]...)
+					ex.afterSyncMapWrite(fr)
 					return TupleV{e.Val, ex.tb.True}
 				}
 			}
@@ -49,6 +50,7 @@ func init() {
 				return TupleV{e.Val, ex.tb.True}
 			}
 			m.Entries = append(m.Entries, &MapEntry{Key: a[1], Val: a[2]})
+			ex.afterSyncMapWrite(fr)
 			return TupleV{a[2], ex.tb.False}
 		},
 		// sync.Pool: Get hands out the most recently Put object (the reuse that makes aliasing visible) or,
@@ -686,6 +688,15 @@ func (ex *Exec) verifCall(fn *ssa.Function, args []Value, fr *Frame) Value {
 			return ex.i64(int64(ex.tm.parks))
 		}
 		return ex.i64(0)
+	case "verifOnSyncMapWrite":
+		// verifOnSyncMapWrite(f): f runs after every Store / Delete / LoadAndDelete / LoadOrStore of any
+		// sync.Map (nil: off)
+		if fv, ok := args[0].(*FuncV); ok && (fv.Fn != nil || fv.Intr != "") {
+			ex.ghost["onsyncmapwrite"] = fv
+		} else {
+			delete(ex.ghost, "onsyncmapwrite")
+		}
+		return nil
 	case "verifOnLock":
 		// verifOnLock(mutex, f): f runs at every (R)Lock of the mutex, before it is acquired
 		// (sequential harnesses: "waiting for the lock takes time")
@@ -976,13 +987,27 @@ func intrSyncMapLoad(ex *Exec, fn *ssa.Function, a []Value, fr *Frame) Value {
 	return TupleV{&IfaceV{}, ex.tb.False}
 }
 
+// afterSyncMapWrite runs the harness' observer (verifOnSyncMapWrite) after a sync.Map was changed:
+// what a concurrent reader of a registry can see between the steps of a reload.
+func (ex *Exec) afterSyncMapWrite(fr *Frame) {
+	cb, ok := ex.ghost["onsyncmapwrite"].(*FuncV)
+	if !ok || ex.inSyncMapHook || ex.inThread() {
+		return
+	}
+	ex.inSyncMapHook = true
+	ex.invoke(cb, nil, fr)
+	ex.inSyncMapHook = false
+}
+
 func intrSyncMapStore(ex *Exec, fn *ssa.Function, a []Value, fr *Frame) Value {
 	m := ex.syncMap(a[0])
 	if e := ex.mapFind(m, a[1]); e != nil {
 		e.Val = a[2]
+		ex.afterSyncMapWrite(fr)
 		return nil
 	}
 	m.Entries = append(m.Entries, &MapEntry{Key: a[1], Val: a[2]})
+	ex.afterSyncMapWrite(fr)
 	return nil
 }
 
@@ -991,6 +1016,7 @@ func intrSyncMapDelete(ex *Exec, fn *ssa.Function, a []Value, fr *Frame) Value {
 	for i, e := range m.Entries {
 		if ex.branch(ex.valEq(e.Key, a[1])) {
 			m.Entries = append(append([]*MapEntry{}, m.Entries[:i]...), m.Entries[i+1:]...)
+			ex.afterSyncMapWrite(fr)
 			break
 		}
 	}
